@@ -35,6 +35,8 @@ type c01Scen struct {
 	Mode    string      `json:"mode"`
 	Clients []c01Client `json:"clients"`
 	Phases  [][]c01Pub  `json:"phases"`
+	// Leaves[p] = clients whose session ends (clean session DISCONNECT or TerminateSession) after phase p
+	Leaves [][]int `json:"leaves,omitempty"`
 }
 
 func genC01(t *rapid.T) c01Scen {
@@ -65,6 +67,11 @@ func genC01(t *rapid.T) c01Scen {
 				Props: rapid.IntRange(0, 31).Draw(t, "props")})
 		}
 		s.Phases = append(s.Phases, ph)
+		var lv []int
+		if p < np-1 && nc >= 2 && rapid.IntRange(0, 2).Draw(t, "leave") == 0 {
+			lv = append(lv, rapid.IntRange(0, nc-1).Draw(t, "leaver"))
+		}
+		s.Leaves = append(s.Leaves, lv)
 	}
 	return s
 }
@@ -203,71 +210,13 @@ func runC01(s c01Scen, c *ev.Case) *ev.Violation {
 	}
 	var sent []sentRec
 	seq := map[int]int{}
-	for pi, ph := range s.Phases {
-		by := map[int][]sentRec{}
-		var order []int
-		for _, p := range ph {
-			seq[p.By]++
-			r := sentRec{p, fmt.Sprintf("%d:%03d", p.By, seq[p.By])}
-			if _, ok := by[p.By]; !ok {
-				order = append(order, p.By)
-			}
-			by[p.By] = append(by[p.By], r)
-			sent = append(sent, r)
-		}
-		if len(order) >= 2 {
-			c.Label("concurrent_phase")
-		}
-		var wg sync.WaitGroup
-		errs := make(chan *ev.Violation, len(order))
-		for _, who := range order {
-			wg.Add(1)
-			go func(who int, recs []sentRec) {
-				defer wg.Done()
-				for k, r := range recs {
-					if who == -1 {
-						b.Srv.Publisher().Publish(apiMsg(r.pub, r.uid))
-						continue
-					}
-					cl := clients[who]
-					pk := &mw.Packet{Topic: r.pub.Topic, QoS: r.pub.QoS, Retain: r.pub.Retain, Payload: []byte(r.uid)}
-					if r.pub.QoS > 0 {
-						pk.PacketID = uint16(1000 + pi*100 + k)
-					}
-					if cl.V == mw.V5 {
-						pk.Props = pubProps(r.pub.Props)
-					}
-					ack, err := cl.Publish(pk)
-					if err != nil {
-						errs <- ev.Violf("C01.ack", "publisher %d: QoS%d PUBLISH id=%d %q not acknowledged: %v", who, r.pub.QoS, pk.PacketID, r.pub.Topic, err).With("qos", r.pub.QoS)
-						return
-					}
-					if ack != nil && cl.V == mw.V5 && ack.ReasonCode >= 0x80 {
-						errs <- ev.Violf("C01.ack", "publisher %d: PUBLISH %q rejected with reason %#x", who, r.pub.Topic, ack.ReasonCode)
-						return
-					}
-				}
-				if who != -1 {
-					if err := clients[who].Ping(fixture.DefaultWait); err != nil {
-						errs <- ev.Violf("C01.ping", "publisher %d: no PINGRESP after publishing: %v", who, err)
-					}
-				}
-			}(who, by[who])
-		}
-		wg.Wait()
-		select {
-		case v := <-errs:
-			return v
-		default:
-		}
-	}
-	if err := sentinelBarrier(b, clients, "end"); err != nil {
-		return ev.Violf("C01.barrier", "%v", err)
-	}
-
-	// compare
+	left := make([]bool, len(clients))
+	// verify compares what client i received with the delivery model for everything published so far
 	nontrivial := false
-	for i, cl := range clients {
+	verified := make([]bool, len(clients))
+	verify := func(i int) *ev.Violation {
+		cl := clients[i]
+
 		var want []delivery
 		ambiguous := map[string]bool{}
 		for _, r := range sent {
@@ -347,6 +296,114 @@ func runC01(s c01Scen, c *ev.Case) *ev.Violation {
 			c.Label("has_delivery")
 		}
 		c.Count("deliveries", len(want))
+		verified[i] = true
+		return nil
+	}
+	for pi, ph := range s.Phases {
+		by := map[int][]sentRec{}
+		var order []int
+		for _, p := range ph {
+			if p.By >= 0 && left[p.By] {
+				continue
+			}
+			seq[p.By]++
+			r := sentRec{p, fmt.Sprintf("%d:%03d", p.By, seq[p.By])}
+			if _, ok := by[p.By]; !ok {
+				order = append(order, p.By)
+			}
+			by[p.By] = append(by[p.By], r)
+			sent = append(sent, r)
+		}
+		if len(order) >= 2 {
+			c.Label("concurrent_phase")
+		}
+		var wg sync.WaitGroup
+		errs := make(chan *ev.Violation, len(order))
+		for _, who := range order {
+			wg.Add(1)
+			go func(who int, recs []sentRec) {
+				defer wg.Done()
+				for k, r := range recs {
+					if who == -1 {
+						b.Srv.Publisher().Publish(apiMsg(r.pub, r.uid))
+						continue
+					}
+					cl := clients[who]
+					pk := &mw.Packet{Topic: r.pub.Topic, QoS: r.pub.QoS, Retain: r.pub.Retain, Payload: []byte(r.uid)}
+					if r.pub.QoS > 0 {
+						pk.PacketID = uint16(1000 + pi*100 + k)
+					}
+					if cl.V == mw.V5 {
+						pk.Props = pubProps(r.pub.Props)
+					}
+					ack, err := cl.Publish(pk)
+					if err != nil {
+						errs <- ev.Violf("C01.ack", "publisher %d: QoS%d PUBLISH id=%d %q not acknowledged: %v", who, r.pub.QoS, pk.PacketID, r.pub.Topic, err).With("qos", r.pub.QoS)
+						return
+					}
+					if ack != nil && cl.V == mw.V5 && ack.ReasonCode >= 0x80 {
+						errs <- ev.Violf("C01.ack", "publisher %d: PUBLISH %q rejected with reason %#x", who, r.pub.Topic, ack.ReasonCode)
+						return
+					}
+				}
+				if who != -1 {
+					if err := clients[who].Ping(fixture.DefaultWait); err != nil {
+						errs <- ev.Violf("C01.ping", "publisher %d: no PINGRESP after publishing: %v", who, err)
+					}
+				}
+			}(who, by[who])
+		}
+		wg.Wait()
+		select {
+		case v := <-errs:
+			return v
+		default:
+		}
+		// sessions that end after this phase: everything published so far must have reached them, then they go
+		if pi < len(s.Leaves) {
+			for _, li := range s.Leaves[pi] {
+				if left[li] {
+					continue
+				}
+				if err := sentinelBarrier(b, []*fixture.Client{clients[li]}, fmt.Sprintf("leave%d", pi)); err != nil {
+					return ev.Violf("C01.barrier", "%v", err)
+				}
+				if v := verify(li); v != nil {
+					return v
+				}
+				for k := 0; k < 3; k++ {
+					_ = clients[li].Ping(fixture.DefaultWait)
+				}
+				if pi%2 == 0 {
+					clients[li].Disconnect()
+				} else {
+					b.Srv.ClientService().TerminateSession(clientName(li))
+				}
+				if !waitSessionGone(b, clientName(li)) {
+					return harnessErr("session of client %d still present 5 s after it ended", li)
+				}
+				left[li] = true
+				subs[li] = map[string]subSpec{}
+				c.Label("session_ended_between_phases")
+			}
+		}
+	}
+	var remaining []*fixture.Client
+	for i, cl := range clients {
+		if !left[i] {
+			remaining = append(remaining, cl)
+		}
+	}
+	if err := sentinelBarrier(b, remaining, "end"); err != nil {
+		return ev.Violf("C01.barrier", "%v", err)
+	}
+
+	for i := range clients {
+		if !verified[i] {
+			if v := verify(i); v != nil {
+				return v
+			}
+		}
 	}
 	if nontrivial {
 		c.NonTrivial()
